@@ -18,6 +18,7 @@ func init() { register("C20", checkC20) }
 
 func checkC20(c *Ctx) {
 	c20FirstStartCrash(c)
+	c20HashPrecision(c)
 	c.SetRule("streams: pin (ValidatePin on structured + random strings; non-trivial = 8 bytes long or a trivial code), " +
 		"xhm (util.XHMURI on (code string, setup id, category, flag list); non-trivial = a URI was produced), " +
 		"xhm-grid (every category 0..255 x every 4-bit flag set, decoded by an independent decoder), " +
